@@ -4,6 +4,7 @@ import (
 	"context"
 	"fmt"
 	mrand "math/rand/v2"
+	"runtime"
 	"sort"
 	"strings"
 	"sync"
@@ -892,4 +893,87 @@ func (c *concCase) phaseCheck(byPhaseName map[string][]*concCall) {
 			}
 		}
 	}
+}
+
+// resizeCase: "concurrent use of one Resolver": while 2..8 goroutines resolve, another one switches the cache off, on
+// and to other sizes. The data never changes and the clock stands still, so every successful result must be the
+// version-0 data; what this workload is for is the race detector (stage race) and panics.
+func (e *env) resizeCase(work string, idx int, rng *mrand.Rand) {
+	r := e.r
+	srv := <-e.servers
+	defer func() { e.servers <- srv }()
+	srv.Reset(dohfake.NewZone())
+	clock := newClock()
+	defer bind(clock)()
+	spec := zoneSpec{}
+	names := []string{pool[rng.IntN(2)], pool[2+rng.IntN(2)]}
+	for _, name := range names {
+		var sets [3]rrset
+		for k := range sets {
+			sets[k] = genSet(rng, k, 1+rng.IntN(3), func() uint32 { return 60 }, 1)
+		}
+		spec[name] = &sets
+	}
+	install(srv, spec, 0)
+	res, err := ech.NewResolver(srv.URL)
+	if err != nil {
+		r.Inconclusive("fixture: NewResolver(%q): %v", srv.URL, err)
+		return
+	}
+	ctx, cancel := context.WithTimeout(context.Background(), 2*time.Minute) // watchdog only
+	defer cancel()
+	G, rounds := 2+rng.IntN(7), 6
+	sizes := []int{0, 16, 0, 3, 32, 0, 1, 8}
+	var wg sync.WaitGroup
+	stop := make(chan struct{})
+	var toggles atomic.Int64
+	wg.Add(1)
+	go func() { // the caller that reconfigures
+		defer wg.Done()
+		defer bind(clock)()
+		for i := 0; ; i++ {
+			select {
+			case <-stop:
+				return
+			default:
+			}
+			res.SetCacheSize(sizes[i%len(sizes)])
+			toggles.Add(1)
+			runtime.Gosched()
+		}
+	}()
+	var lookups sync.WaitGroup
+	for g := 0; g < G; g++ {
+		lookups.Add(1)
+		go func() {
+			defer lookups.Done()
+			defer bind(clock)()
+			for k := 0; k < rounds; k++ {
+				name := names[(g+k)%len(names)]
+				c := map[string]any{"name": name, "goroutines": G}
+				r.Guard(work, idx, "resize:resolve", c, func() {
+					out, err := res.Resolve(ctx, name)
+					r.Count("resize_lookups", 1)
+					if err != nil {
+						r.Violate(work, idx, "resize:error", fmt.Sprintf("Resolve(%s) failed with %v while another goroutine called SetCacheSize; the upstream answers every query", name, err), c)
+						return
+					}
+					vers, problem, _ := observe(name, out, func(v int) (string, *[3]rrset) {
+						if v < 0 {
+							return name, nil
+						}
+						return name, spec[name]
+					})
+					if problem != "" || vers != [3]int{0, 0, 0} {
+						r.Violate(work, idx, "resize:wrong-data", fmt.Sprintf("Resolve(%s) returned versions %v (%s) while another goroutine called SetCacheSize; the zone only ever held version 0", name, vers, problem), c)
+					}
+				})
+			}
+		}()
+	}
+	lookups.Wait()
+	close(stop)
+	wg.Wait()
+	r.Count("resize_cases", 1)
+	r.Count("resize_setcachesize_calls", toggles.Load())
 }
